@@ -176,7 +176,7 @@ def run_entry(entry, root_path, root_text, root_dir, elsewhere, public):
 
 def units(tier):
     us = [("TREES", n, si) for n in range(1, 6) for si in range(len(PATH_STYLES))]
-    us += [("CHAINS",), ("CYCLES",), ("MISSING",), ("NOEXPAND",), ("API",)]
+    us += [("CHAINS",), ("CYCLES",), ("MISSING",), ("NOEXPAND",), ("API",), ("SHARED",)]
     return us
 
 
@@ -347,6 +347,51 @@ def run_missing(res):
     R.add_sub(res, "missing include file", res["evals"])
 
 
+def run_shared(res):
+    """acyclic trees in which one file is referenced more than once: twice by siblings, a diamond, the same file at two depths"""
+    def body(root_dir, elsewhere):
+        for style in PATH_STYLES:
+            for nl in ("\n", "\r\n"):
+                for shape in ("siblings", "diamond", "two_depths", "thrice"):
+                    clean_dir(root_dir)
+                    files = Files(root_dir, style, nl)
+                    common, a, b = files.new_name(), files.new_name(), files.new_name()
+                    common_lines = ['  SHAPEPATH "shared"']
+                    files.files[common] = nl.join(common_lines) + nl
+                    if shape == "siblings":
+                        root = ["MAP", '  NAME "r"', "  " + files.ref(common), '  IMAGETYPE "x"', "  " + files.ref(common), "END"]
+                        flat = ["MAP", '  NAME "r"'] + common_lines + ['  IMAGETYPE "x"'] + common_lines + ["END"]
+                    elif shape == "thrice":
+                        root = ["MAP"] + ["  " + files.ref(common)] * 3 + ["END"]
+                        flat = ["MAP"] + common_lines * 3 + ["END"]
+                    elif shape == "diamond":
+                        files.files[a] = nl.join(['  FONTSET "a"', "  " + files.ref(common)]) + nl
+                        files.files[b] = nl.join(["  " + files.ref(common), '  SYMBOLSET "b"']) + nl
+                        root = ["MAP", "  " + files.ref(a), "  " + files.ref(b), "END"]
+                        flat = ["MAP", '  FONTSET "a"'] + common_lines + common_lines + ['  SYMBOLSET "b"', "END"]
+                    else:
+                        files.files[a] = nl.join(["  " + files.ref(common), '  FONTSET "a"']) + nl
+                        root = ["MAP", "  " + files.ref(common), "  " + files.ref(a), "END"]
+                        flat = ["MAP"] + common_lines + common_lines + ['  FONTSET "a"', "END"]
+                    root_text = nl.join(root) + nl
+                    files.files["root.map"] = root_text
+                    files.write()
+                    want = ("ok", D.typed(impl.loads(nl.join(flat) + nl, expand_includes=False)))
+                    for entry in entries():
+                        got = run_entry(entry, os.path.join(root_dir, "root.map"), root_text, root_dir, elsewhere, False)
+                        res["evals"] += 1
+                        if got == want:
+                            R.add_outcome(res, "equals_substitution")
+                            res["states"].add(R.h64((shape, style["name"], nl, entry)))
+                        else:
+                            R.add_outcome(res, "differs")
+                            R.add_violation(res, "shared|%s|%s" % (shape, entry), "a file included more than once in an acyclic tree is not expanded by substitution: %s" % (
+                                str(got)[:160],), {"files": dict(files.files), "entry": entry, "flat": nl.join(flat) + nl}, None)
+
+    with_scratch(body)
+    R.add_sub(res, "one file included several times (siblings, diamond, two depths)", res["evals"])
+
+
 def run_noexpand(res):
     """expand_includes=False keeps the directives as data and writes them back unchanged"""
     for paths in (["a.map"], ["a.map", "sub/b.map"], ["/abs/x.map", "y.map", "z z.map"]):
@@ -387,6 +432,8 @@ def run_unit(unit):
         run_missing(res)
     elif k == "NOEXPAND":
         run_noexpand(res)
+    elif k == "SHARED":
+        run_shared(res)
     else:
         # public-API binding: the module-level open / load / loads on a bounded subset
         run_trees(res, 3, 0, public=True, limit=6)
